@@ -84,7 +84,7 @@ func VerifObserve(s Simulator, addrs []module.Address) []VerifAccount {
 	return res
 }
 
-// VerifPRepStatus reports for every owner whether it is a registered P-Rep ("active"/"inactive") or not ("none")
+// VerifPRepStatus reports for every owner whether it is an active P-Rep ("active"), was one ("unregistered"/"disqualified") or never registered ("none")
 // in the last finalized block.
 func VerifPRepStatus(s Simulator, owners []module.Address) []string {
 	sim := s.(*simulatorImpl)
@@ -97,9 +97,21 @@ func VerifPRepStatus(s Simulator, owners []module.Address) []string {
 			res[i] = "none"
 		case p.IsActive():
 			res[i] = "active"
+		case p.Status() == icstate.Disqualified:
+			res[i] = "disqualified"
 		default:
-			res[i] = "inactive"
+			res[i] = "unregistered"
 		}
 	}
 	return res
+}
+
+// VerifPRepVotes returns delegated and bonded amounts recorded in the P-Rep status of owner (nil if there is none).
+func VerifPRepVotes(s Simulator, owner module.Address) (delegated, bonded *big.Int) {
+	sim := s.(*simulatorImpl)
+	p := sim.getReadonlyExtensionState().State.GetPRepByOwner(owner)
+	if p == nil {
+		return nil, nil
+	}
+	return p.Delegated(), p.Bonded()
 }
